@@ -383,12 +383,27 @@ class Interp:
                 ns['init_methods'] = {types[i]: mk(i) for i in s['dict']}
             if 'prefix' in s:
                 ns['init_prefix'] = s['prefix']
-            for pref, name in s.get('methods', []):
-                def meth(self, t, level=level):
+            for m in s.get('methods', []):
+                pref, name = m[0], m[1]
+                kind = m[2] if len(m) > 2 else 'plain'
+
+                def make(t, level=level):
                     o = t()
                     o._src = f'method{level}'
                     return o
-                ns[pref + name] = meth
+                if kind == 'static':
+                    ns[pref + name] = staticmethod(lambda t, mk=make: mk(t))
+                elif kind == 'class':
+                    ns[pref + name] = classmethod(
+                        lambda cls, t, mk=make: mk(t))
+                elif kind == 'partial':
+                    import functools
+                    ns[pref + name] = functools.partial(
+                        lambda tag, t, mk=make: mk(t), 'bound argument')
+                else:
+                    ns[pref + name] = (lambda self, t, mk=make: mk(t))
+                if kind != 'plain':
+                    it.probes['proto.method_kind.' + kind] += 1
             return ns
         Base = type('Proto0', (d.Prototype,), build(0))
         cls = Base
@@ -404,9 +419,18 @@ class Interp:
                 eff['dict'] = {i: level for i in s['dict']}
             if 'prefix' in s:
                 eff['prefix'] = s['prefix']
-            for pref, name in s.get('methods', []):
-                eff['methods'][pref + name] = level
+            for m in s.get('methods', []):
+                eff['methods'][m[0] + m[1]] = level
         proto = cls()
+        for m in spec.get('inst_methods', []):
+            # a callable stored on the instance: found by getattr as well
+            def imake(t):
+                o = t()
+                o._src = 'methodinst'
+                return o
+            setattr(proto, m[0] + m[1], imake)
+            eff['methods'][m[0] + m[1]] = 'inst'
+            self.probes['proto.method_kind.instance'] += 1
         prev = None
         for rnd in range(2):
             try:
@@ -534,6 +558,10 @@ def execute(scenario, prop, tolerate=frozenset()):
 
 def gen_proto(rng):
     names = ['A', 'B', 'C', 'A']            # two types named 'A'
+    if rng.random() < .15:
+        # names that, with the prefix in front, spell an attribute the
+        # Prototype class has anyway (init_prefix, init_methods)
+        names[rng.randrange(3)] = rng.choice(['prefix', 'methods'])
     ntypes = rng.randint(1, 4)
     types = [[names[i], f'ns{i}'] for i in range(ntypes)]
     levels = []
@@ -550,11 +578,22 @@ def gen_proto(rng):
                      else 'init_')
         meths = []
         for n in sorted(set(names[:ntypes])):
+            if n in ('prefix', 'methods'):
+                continue        # no method: the default constructor it is
             if rng.random() < .5:
-                meths.append([pref if rng.random() < .8 else 'init_', n])
+                m = [pref if rng.random() < .8 else 'init_', n]
+                if rng.random() < .3:
+                    m.append(rng.choice(['static', 'class', 'partial']))
+                meths.append(m)
         s['methods'] = meths
         levels.append(s)
-    return {'types': types, 'levels': levels}
+    out = {'types': types, 'levels': levels}
+    if rng.random() < .12:
+        pref = levels[-1].get('prefix', levels[0].get('prefix', 'init_'))
+        out['inst_methods'] = [[pref, rng.choice(
+            [n for n in names[:ntypes] if n not in ('prefix', 'methods')]
+            or ['A'])]]
+    return out
 
 
 def generate(prop, run_seed, tier='quick', tolerate=frozenset()):
@@ -670,7 +709,9 @@ PROBES = {'C19': ['form.function', 'form.method', 'form.descriptor_get',
                   'form.processor_ref', 'form.factory',
                   'controller_attached_disabled', 'proto.dict_wins',
                   'proto.prefix_method', 'proto.default_ctor',
-                  'processor_from_another_world',
+                  'processor_from_another_world', 'proto.method_kind.static',
+                  'proto.method_kind.class', 'proto.method_kind.partial',
+                  'proto.method_kind.instance',
                   'proto.custom_prefix', 'proto.override',
                   'proto_iterated_twice', 'same_name_types',
                   'on_update_checked', 'instance_priority']}
